@@ -42,8 +42,11 @@ CONFIGS = {
                      ('opret', cfg(Active='{9, 10, 12}', MaxBlocks=4)), ('multi', cfg(Active='{1, 11, 12, 9}', MaxBlocks=3))],
     },
     'C02': {
-        'quick': [('fwd', cfg()), ('multi', cfg(Active='{9, 11, 12}', FlushKinds='{"none", "hist", "full"}'))],
-        'thorough': [('fwd', cfg(MaxBlocks=4)), ('multi', cfg(Active='{1, 9, 11, 12}', MaxBlocks=4))],
+        'quick': [('fwd', cfg()), ('multi', cfg(Active='{9, 11, 12}', FlushKinds='{"none", "hist", "full"}')),
+                  # outputs that are unspendable before / spendable from the activation height pay or do not pay a script
+                  ('opret', cfg(Active='{9, 10, 12}', Activation=2, FlushKinds='{"none", "full"}'))],
+        'thorough': [('fwd', cfg(MaxBlocks=4)), ('multi', cfg(Active='{1, 9, 11, 12}', MaxBlocks=4)),
+                     ('opret', cfg(Active='{9, 10, 12}', MaxBlocks=4, Activation=2))],
     },
     'C03': {
         'quick': [('reorg', cfg(Active='{1}', MaxPerBlock=1, MaxForks=1, MaxForced=1, MaxRestarts=1, FlushKinds='{"none", "full"}')),
@@ -78,11 +81,11 @@ CONFIGS = {
 CLAUSES = {
     'C01': {'UtxoViewCorrect', 'RawRowsClean', 'NoUnexpectedDeath', 'ChainIsPath'},
     'C02': {'HistCorrect', 'TxNumMap'},
-    'C03': {'ChainIsPath', 'UtxoViewCorrect', 'RawRowsClean', 'HistCorrect', 'TxNumMap', 'CaughtUpFresh', 'FinalAtTip',
+    'C03': {'ChainIsPath', 'UtxoViewCorrect', 'RawRowsClean', 'HistCorrect', 'TxNumMap', 'HeaderProofs', 'CaughtUpFresh', 'FinalAtTip',
             'NoUnexpectedDeath', 'NotStuck'},
-    'C04': {'ChainIsPath', 'UtxoViewCorrect', 'RawRowsClean', 'HistCorrect', 'TxNumMap', 'CaughtUpFresh', 'FinalAtTip',
+    'C04': {'ChainIsPath', 'UtxoViewCorrect', 'RawRowsClean', 'HistCorrect', 'TxNumMap', 'HeaderProofs', 'CaughtUpFresh', 'FinalAtTip',
             'RecoveredCommitted', 'NoUnexpectedDeath', 'NotStuck'},
-    'C05': {'ChainIsPath', 'UtxoViewCorrect', 'RawRowsClean', 'HistCorrect', 'TxNumMap', 'CaughtUpFresh', 'FinalAtTip',
+    'C05': {'ChainIsPath', 'UtxoViewCorrect', 'RawRowsClean', 'HistCorrect', 'TxNumMap', 'HeaderProofs', 'CaughtUpFresh', 'FinalAtTip',
             'RecoveredCommitted', 'NoUnexpectedDeath', 'NotStuck'},
     'C15': {'WindowPresent', 'PrunedOnOpen', 'UndoAvailable'},
 }
@@ -185,6 +188,18 @@ def interesting(evs):
     return (kinds.count('fork') + kinds.count('switch') + kinds.count('force'), kinds.count('mine'), len(evs))
 
 
+def hist_run(evs):
+    '''Longest run of history-only flushes not separated by a full flush (a catch-up flushes everything).'''
+    best = cur = 0
+    for e in evs:
+        if e['e'] == 'advance' and e.get('flush') == 'hist':
+            cur += 1
+            best = max(best, cur)
+        elif (e['e'] == 'advance' and e.get('flush') == 'full') or e['e'] in ('caughtup', 'backup', 'restart'):
+            cur = 0
+    return best
+
+
 def check(pid, tier, seed):
     level = 'fault_enumeration' if pid in ('C04', 'C05') else 'model_checking'
     out = Outcome(pid, tier, seed, level)
@@ -221,8 +236,16 @@ def check(pid, tier, seed):
                 crash_jobs = []
                 base = [t for t in traces if 'error' not in t]
                 base.sort(key=lambda t: -t['ops'])
-                chosen = base[:(6 if quick else 60)] if pid == 'C04' else \
-                    [t for t in base if any(s.get('ev') == 'backedup' for s in t['steps'])][:(6 if quick else 60)]
+                if pid == 'C04':
+                    # half by number of durable operations, half by the longest run of history-only flushes ahead of
+                    # the UTXO flush (what clear_excess has to undo on restart)
+                    n = 6 if quick else 60
+                    byrun = sorted(base, key=lambda t: (-hist_run(t['job']['events']), -t['ops']))
+                    chosen = base[:n // 2]
+                    chosen += [t for t in byrun if t not in chosen][:n - len(chosen)]
+                    out.add(max_hist_run=max(hist_run(t['job']['events']) for t in chosen))
+                else:
+                    chosen = [t for t in base if any(s.get('ev') == 'backedup' for s in t['steps'])][:6 if quick else 60]
                 for t in chosen:
                     j = t['job']
                     for k in range(1, t['ops'] + 1):
@@ -242,7 +265,7 @@ def check(pid, tier, seed):
         # 4. validation
         keys = ('tree', 'activation', 'limit', 'steps')
         res, failures = validate_traces(sc, 'IndexTrace', 'IndexTrace.cfg', [{k: t[k] for k in keys} for t in traces],
-                                        workers=16, timeout=3000)
+                                        workers=16, timeout=3000, invariants=CLAUSES[pid])
         out.add(traces_validated_against_impl=len(traces), trace_states=res.distinct,
                 evaluations=len(traces), distinct_nontrivial=len({json.dumps(t['job'], sort_keys=True) for t in traces}),
                 rule='one real execution per (scenario exported by TLC from Index.tla, crash ordinal, torn fraction, '
@@ -299,7 +322,8 @@ def replay(doc):
         print({k: v for k, v in s.items() if k in ('ev', 'h', 'tip', 'hdrs', 'best', 'fresh', 'uc', 'txc', 'undo', 'why', 'exc')})
     keys = ('tree', 'activation', 'limit', 'steps')
     with Scratch('idxr') as sc:
-        _res, failures = validate_traces(sc, 'IndexTrace', 'IndexTrace.cfg', [{k: t[k] for k in keys}], workers=2)
+        _res, failures = validate_traces(sc, 'IndexTrace', 'IndexTrace.cfg', [{k: t[k] for k in keys}], workers=2,
+                                         invariants=CLAUSES[doc['property']])
     mine = CLAUSES[doc['property']]
     failures = [f for f in failures if f['clause'] in mine]
     if failures:
